@@ -54,7 +54,7 @@ def parseQuery? (s : String) : Option Q :=
   match rest.splitOn "@" with
   | [a, n] => do
     let n ← n.toInt?
-    if kind == "v" then (if a == "" then some (.version n) else none)
+    if kind == "v" || kind == "V" then (if a == "" then some (.version n) else none)
     else if kind == "g" then (if a == "" then some (.gate n) else none)
     else if kind == "m" then (if a == "" then some (.mtp n) else none)
     else if kind == "G" then (if a == "" then some (.gateExp n false) else none)
